@@ -598,13 +598,47 @@ def replay(pid, path):
                 return 1
             print("no violation at this input on the current tree")
             return 0
-        return 1
+        return rerun(pid, d, path)
     if d["kind"] == "l1":
         line = d["first"]["request"]
-        rc, out, err = vlib.run_lines(exe, [line])
-        rc2, out2, err2 = vlib.run_lines(vlib.DRIVER, [line])
-        eq, why = l1.compare(out[0], out2[0])
+        t = line.split()
+        if len(t) < 5 or t[0] not in ("0", "1"):
+            return rerun(pid, d, path)
+        f32 = d["first"].get("scalar") == "float"
+        ok, hexe = vlib.harness_build(t[0] == "1", extra_flags=["-DHX_SC=float"] if f32 else (), tag="_f" if f32 else "")
+        if not ok:
+            print("harness does not compile:\n" + hexe[-3000:])
+            return 1
+        rc, out, err = vlib.run_lines(hexe, [line])
+        rc2, out2, err2 = vlib.run_lines([vlib.DRIVER, "f32"] if f32 else vlib.DRIVER, [line])
+        eq, why = l1.compare(out[0], out2[0], (t[2], t[3]), tol_rel=1e-5 if f32 else None)
         print("request:", line, "\nimpl :", out[0], "\nmodel:", out2[0], "\n", "agree" if eq else why)
+        if not eq:
+            print("VIOLATION property=%s replay=%s correspondence still broken at this request no-failing-input-found" % (pid, path))
         return 0 if eq else 1
-    print(json.dumps(d, indent=1)[:4000])
-    return 1
+    return rerun(pid, d, path)
+
+
+def rerun(pid, d, path):
+    """generic replay: re-run the check that recorded the violation with the recorded seed and tier against
+    the current tree and report whether the same (group, operation, output) is still violated."""
+    print(json.dumps({k: v for k, v in d.items() if k not in ("log", "compiler_output")}, indent=1)[:2500])
+    seed, tier = d.get("seed"), d.get("tier") or "quick"
+    if seed is None:
+        print("replay file carries no seed: cannot re-run")
+        return 1
+    check.CTX.update(seed=seed, tier=tier, quiet=True)
+    res = check.Result(pid, tier, seed)
+    run_property(pid, tier == "thorough", seed, res)
+    verdict = getattr(res, "replay_verdict", [])
+    v = d.get("violation") or {}
+    key = "%s %s/%s" % (v.get("group"), v.get("op"), v.get("output"))
+    same = [x for x, _ in verdict if v and x.startswith(key)] if v else [x for x, _ in verdict]
+    print("re-run with seed %s (%s tier): %d violation(s), %d matching the recorded one" % (seed, tier, len(verdict), len(same)))
+    for x in (same or [x for x, _ in verdict])[:5]:
+        print("  now:", x[:300])
+    if same or (verdict and not v):
+        print("VIOLATION property=%s replay=%s" % (pid, path))
+        return 1
+    print("not reproduced on the current tree")
+    return 0
